@@ -228,15 +228,11 @@ class Block:
     def __check_dependency(self):
         allfactors = set()
         for cFactor in self.continuous_factors:
-            dependents = cFactor.get_levels()
-            if len(dependents)==0:
-                allfactors.add(cFactor.name)
-            else:
-                for dependent in dependents:
-                    if isinstance(dependent, ContinuousFactor) and dependent.name not in allfactors:
-                        raise RuntimeError("WARNING: Derived Conitunuous factor {} has dependency {} not included in the deisgn".format(cFactor.name, dependent.name))
-                    elif isinstance(dependent, ContinuousFactor):
-                        allfactors.add(cFactor.name)
+            for dependent in cFactor.get_levels():
+                if isinstance(dependent, ContinuousFactor) and dependent.name not in allfactors:
+                    raise RuntimeError("WARNING: Derived Conitunuous factor {} has dependency {} not included in the deisgn".format(cFactor.name, dependent.name))
+            # Every continuous factor of the design can be a dependency of a later one
+            allfactors.add(cFactor.name)
         return
                 
     def __validate(self, who: str):
